@@ -64,5 +64,53 @@ def generate(problems):
                 text = "".join(v.value for v in a.values if isinstance(v, ast.Constant)) if isinstance(a, ast.JoinedStr) else getattr(a, "value", "")
                 raised.append((node.lineno, str(text)))
     body += "def initialChecks : List String := %s\n" % lean_str_list([t for _, t in sorted(raised)])
+    # --- apply_parsing_links: the guards (early returns, recursion, loop) in source order
+    apl = find_method(links, "ActionLink", "apply_parsing_links")
+    guards, steps = [], []
+    if apl is None:
+        problems.append("LinksOrder: ActionLink.apply_parsing_links not found")
+    else:
+        def names_in(node):
+            return {n.attr if isinstance(n, ast.Attribute) else n.id for n in ast.walk(node) if isinstance(n, (ast.Attribute, ast.Name))}
+
+        def returns(node):
+            return any(isinstance(x, ast.Return) for x in node.body)
+
+        loop = None
+        for st in apl.body:
+            if isinstance(st, ast.If):
+                nm = names_in(st.test)
+                if returns(st) and ("apply_config_skip" in nm or "is_print_config_requested" in nm):
+                    parts = [x for x in ("apply_config_skip", "is_print_config_requested") if x in nm]
+                    guards.append("return if " + " or ".join(parts))
+                elif returns(st) and "hasattr" in nm and any(isinstance(c, ast.Constant) and c.value == "_links_group" for c in ast.walk(st.test)):
+                    guards.append("return if no _links_group")
+                elif "apply_parsing_links" in names_in(ast.Module(body=st.body, type_ignores=[])):
+                    guards.append("recurse into subcommand" + (" if subcommand in cfg" if "subcommand" in nm and any(isinstance(c, ast.In) for c in ast.walk(st.test)) else ""))
+                else:
+                    guards.append("if ?")
+            elif isinstance(st, ast.Assign) and "get_subcommand" in names_in(st.value):
+                kw = [k.arg + "=" + repr(getattr(k.value, "value", "?")) for k in st.value.keywords] if isinstance(st.value, ast.Call) else []
+                guards.append("get_subcommand " + " ".join(kw))
+            elif isinstance(st, ast.For):
+                guards.append("loop over links")
+                loop = st
+            elif isinstance(st, ast.Return):
+                guards.append("return")
+        # inside the loop: what happens per source, in order
+        if loop is not None:
+            for st in ast.walk(loop):
+                if isinstance(st, ast.For) and isinstance(st.target, ast.Tuple) and "source" in names_in(st.iter):
+                    for x in st.body:
+                        nm = names_in(x)
+                        if isinstance(x, ast.If) and "is_subclass_typehint" in nm:
+                            steps.append("skip link if subclass source absent")
+                        elif isinstance(x, ast.For) and "_check_value_key" in nm:
+                            steps.append("check source values")
+                        elif isinstance(x, ast.Expr) and "append" in nm:
+                            steps.append("read source")
+                    break
+    body += "def applyGuards : List String := %s\n" % lean_str_list(guards)
+    body += "def applySourceSteps : List String := %s\n" % lean_str_list(steps)
     body += "end Jap.Gen.LinksOrder\n"
     write_if_changed("LinksOrder.lean", body)
